@@ -8,11 +8,18 @@
    hannR p = 1/2 * (1 - cos (p * (PI * 2))), `% 1.0` = truncated remainder) and uses only
    the standard library's real-number axioms.  Part 2 (the integer schedule) is axiom-free.
    The IEEE behaviour (rounded phase accumulation, libm cos, mul_amp through the sample
-   conversions) is tied to the crates by the correspondence check, not proved here. *)
+   conversions) is tied to the crates by the correspondence check, not proved here.
+   Part 4 is the translator tie: gen/WindowGen.v is REGENERATED from dasp_signal/src/window/mod.rs by
+   translate/window2coq.py on every run (Window::new / next, Windower::new / next / size_hint,
+   Windowed::next); every generated definition equals the hand model's on all inputs, so the theorems
+   of Parts 2 and 3 are theorems about the regenerated model (restated on it), and the window values
+   of Part 1 are those of the regenerated Window iterator. *)
 Require Import List Arith ZArith Reals.
 From Flocq Require Import Raux.
 From Dasp Require Import Base.Res Signal.Window Signal.WindowSpec Signal.WindowProofs
-  Signal.WindowR Signal.WindowRProofs Signal.WindowExamples.
+  Signal.WindowR Signal.WindowRProofs Signal.WindowExamples
+  Signal.WindowPrim Signal.WindowGenGlue Signal.WindowGenEquiv Signal.WindowGenEquivR Signal.WindowGenExamples.
+From DaspGen Require Import WindowGen.
 Import ListNotations.
 Open Scope nat_scope.
 
@@ -178,3 +185,105 @@ Theorem c20_count_method : forall (A : Type) (fr : list A) (b h : nat), 1 <= b -
     Ok (if b <=? length fr then (length fr - b) / h + 1 else 0, w') /\ w_next w' = Ok None.
 Proof. exact @windower_count_method. Qed.
 Print Assumptions c20_count_method.
+
+(* ------------------------------------------------------------------------- *)
+(* Part 4 — the translator tie.  gen/WindowGen.v (regenerated from dasp_signal/src/window/mod.rs on every
+   run) against the hand model Signal/Window.v, on ALL inputs, including which panic comes out; every
+   arithmetic N, window function, sample / float types, conversions.  An item of the generated Windower is
+   the whole `Windowed { signal: from_iter(frames[..bin]), window: Window::new(bin) }` = [windowed_of c bin]
+   where the hand model's w_next returns the slice c.  [gen_drain] / [gen_after] / [gen_nth] / [gen_last] /
+   [gen_count] (Signal/WindowGenGlue.v) are w_drain / w_after / w_nth / w_last / w_count over the generated
+   next: what a caller of the iterator does, and the core::iter defaults. *)
+
+Theorem c20_gen_windower_agrees : forall (N : arith) (Smp : Type),
+  (forall (fr : list (list Smp)) b h, Windower_new Smp fr b h = Ok (w_new fr b h)) /\
+  (forall w : windower (list Smp), Windower_next N Smp w =
+     let* r := w_next w in
+     Ok (match r with Some (c, w') => (w', Some (windowed_of N Smp c (bin w))) | None => (w, None) end)) /\
+  (forall w : windower (list Smp), Windower_size_hint Smp w = w_size_hint w) /\
+  (forall fuel (w : windower (list Smp)), gen_drain N Smp fuel w =
+     let* r := w_drain fuel w in Ok (map (fun c => windowed_of N Smp c (bin w)) (fst r), snd r)) /\
+  (forall j (w : windower (list Smp)), gen_after N Smp j w = w_after j w) /\
+  (forall k (w : windower (list Smp)), gen_nth N Smp k w =
+     let* r := w_nth k w in Ok (option_map (fun c => windowed_of N Smp c (bin w)) (fst r), snd r)) /\
+  (forall fuel (w : windower (list Smp)), gen_last N Smp fuel w =
+     let* r := w_last fuel w in Ok (option_map (fun c => windowed_of N Smp c (bin w)) (fst r), snd r)) /\
+  (forall fuel (w : windower (list Smp)), gen_count N Smp fuel w = w_count fuel w).
+Proof. exact gen_windower_agrees. Qed.
+Print Assumptions c20_gen_windower_agrees.
+
+(* Window::new is window_new (phase step 1/(len-1), phase 0); Window::next never returns None, steps the phase
+   and yields the window function at the phase before the step, converted f64 -> Float -> F::Sample, on every
+   channel; Windowed::next never returns None either and is windowed_next (window first, then the signal,
+   then mul_amp); hence the frame sequences *)
+Theorem c20_gen_window_agrees : forall (N : arith) (wfun : T N -> T N) (Smp FS WS : Type) (conv : T N -> FS)
+    (back : FS -> WS) (smul : Smp -> FS -> Smp) (equilibrium : Smp) (nch : nat),
+  (forall len, Window_new N len = Ok (window_new N len)) /\
+  (forall p, Window_next N wfun FS WS conv back nch p =
+     Ok (snd (window_next N wfun FS conv nch p), Some (map back (fst (window_next N wfun FS conv nch p))))) /\
+  (forall x, Windowed_next N wfun Smp FS conv smul equilibrium nch x =
+     Ok (snd (windowed_next N wfun Smp FS conv smul equilibrium nch x),
+         Some (fst (windowed_next N wfun Smp FS conv smul equilibrium nch x)))) /\
+  (forall m x, gen_windowed_take N wfun Smp FS conv smul equilibrium nch m x =
+     Ok (windowed_take N wfun Smp FS conv smul equilibrium nch m x)) /\
+  (forall n m, gen_window_take N wfun FS WS conv back nch n m =
+     Ok (map (fun j => repeat (back (conv (wfun (phase_at N j (window_new N n))))) nch) (seq 0 m))).
+Proof. exact gen_window_agrees. Qed.
+Print Assumptions c20_gen_window_agrees.
+
+(* ... so the schedule clauses hold of the iteration over the regenerated next: count chunks then None, no
+   panic, item k = Windowed over frames k*h .. k*h+b-1 with a fresh window of b frames *)
+Theorem c20_gen_schedule : forall (N : arith) (Smp : Type) (fr : list (list Smp)) (b h : nat), 1 <= b -> 1 <= h ->
+  exists items w', gen_drain N Smp (S (length fr)) (w_new fr b h) = Ok (items, w') /\
+    Windower_next N Smp w' = Ok (w', None) /\
+    length items = (if b <=? length fr then (length fr - b) / h + 1 else 0) /\
+    forall k, k < length items ->
+      k * h + b <= length fr /\ nth_error items k = Some (windowed_of N Smp (firstn b (skipn (k * h) fr)) b).
+Proof. exact gen_windower_schedule. Qed.
+Print Assumptions c20_gen_schedule.
+
+(* the regenerated size_hint in every state reachable by the regenerated next *)
+Theorem c20_gen_size_hint : forall (N : arith) (Smp : Type) (fr : list (list Smp)) (b h j : nat)
+    (wj : windower (list Smp)), 1 <= b -> 1 <= h ->
+  gen_after N Smp j (w_new fr b h) = Ok (Some wj) ->
+  exists remaining w', gen_drain N Smp (S (length (frames wj))) wj = Ok (remaining, w') /\
+    Windower_next N Smp w' = Ok (w', None) /\
+    Windower_size_hint Smp wj = Ok (Hint (length remaining) (Some (length remaining))) /\
+    length remaining = (if b <=? length fr then (length fr - b) / h + 1 else 0) - j.
+Proof. exact gen_windower_size_hint. Qed.
+Print Assumptions c20_gen_size_hint.
+
+(* nth(k) / last() / count() over the regenerated next *)
+Theorem c20_gen_methods : forall (N : arith) (Smp : Type) (fr : list (list Smp)) (b h : nat), 1 <= b -> 1 <= h ->
+  (forall k, exists w', gen_nth N Smp k (w_new fr b h) =
+     Ok (if k <? (if b <=? length fr then (length fr - b) / h + 1 else 0)
+         then Some (windowed_of N Smp (firstn b (skipn (k * h) fr)) b) else None, w')) /\
+  (exists w', gen_last N Smp (S (length fr)) (w_new fr b h) =
+     Ok (if b <=? length fr then Some (windowed_of N Smp (firstn b (skipn ((length fr - b) / h * h) fr)) b) else None, w') /\
+     Windower_next N Smp w' = Ok (w', None)) /\
+  (exists w', gen_count N Smp (S (length fr)) (w_new fr b h) =
+     Ok (if b <=? length fr then (length fr - b) / h + 1 else 0, w') /\
+     Windower_next N Smp w' = Ok (w', None)).
+Proof. exact gen_windower_methods. Qed.
+Print Assumptions c20_gen_methods.
+
+(* frame j < b of item k, pulled through the regenerated Windowed::next (which pulls the regenerated
+   Window::next), is input frame k*h+j with every sample mul_amp'ed by the window value of position j *)
+Theorem c20_gen_chunk_scaled : forall (N : arith) (wfun : T N -> T N) (Smp FS : Type) (conv : T N -> FS)
+    (smul : Smp -> FS -> Smp) (equilibrium : Smp) (nch : nat) (fr : list (list Smp)) (b h : nat),
+  1 <= b -> 1 <= h -> (forall f, In f fr -> length f = nch) ->
+  exists items w', gen_drain N Smp (S (length fr)) (w_new fr b h) = Ok (items, w') /\
+    forall k x, nth_error items k = Some x ->
+    forall j m, j < b -> j < m ->
+      exists f frames, nth_error fr (k * h + j) = Some f /\
+        gen_windowed_take N wfun Smp FS conv smul equilibrium nch m x = Ok frames /\
+        nth_error frames j = Some (map (fun s => smul s (conv (wfun (phase_at N j (window_new N b))))) f).
+Proof. exact gen_windowed_chunk. Qed.
+Print Assumptions c20_gen_chunk_scaled.
+
+(* the regenerated Window iterator over the reals with the true cosine: frame i carries hann(i/(n-1)) *)
+Theorem c20_gen_window_hann : forall (nch n m : nat), 2 <= n ->
+  gen_window_take AR hannR R R (fun v => v) (fun v => v) nch n m =
+  Ok (map (fun i => repeat (hannR (INR i / (INR n - 1))) nch) (seq 0 m)).
+Proof. exact gen_window_hann_values. Qed.
+Print Assumptions c20_gen_window_hann.
